@@ -9,8 +9,8 @@ import (
 	"unicode/utf8"
 
 	"github.com/DDP-Projekt/Kompilierer/src/ddperror"
-	rt "github.com/DDP-Projekt/Kompilierer/src/zzverif/rt"
 	"github.com/DDP-Projekt/Kompilierer/src/token"
+	rt "github.com/DDP-Projekt/Kompilierer/src/zzverif/rt"
 )
 
 func vIsBlank(b byte) bool { return b == ' ' || b == '\t' || b == '\r' || b == '\n' }
